@@ -4,6 +4,7 @@ import (
 	"bytes"
 	"encoding/json"
 	"fmt"
+	"github.com/lestrrat-go/jwx/v2/jwa"
 	"math"
 	"math/rand/v2"
 	"os"
@@ -309,7 +310,19 @@ func c19BuildOne(r *rand.Rand, kp *keys.Pair, observe bool) (*c19Shared, error) 
 		}
 		s.pipeYAML = string(py)
 	}
-	s.pub = kp.PubSet
+	// the shared key set: the signing key's public half (a copy, not the process-wide one) next to a public key
+	// that has no key id - a verifier only reads it
+	s.pub = jwk.NewSet()
+	if pk, ok := kp.PubSet.Key(0); ok {
+		if cp, err := pk.Clone(); err == nil {
+			_ = s.pub.AddKey(cp)
+		}
+	}
+	if _, nokid, err := jwkutil.NewKeyPair("", jwa.EdDSA); err == nil {
+		if k, ok := nokid.Key(0); ok {
+			_ = s.pub.AddKey(k)
+		}
+	}
 	s.signStep = &signature.CommandStepWithInvariants{
 		CommandStep: pipeline.CommandStep{Command: "make", Env: map[string]string{"A": "1", "B": "2"},
 			Plugins: pipeline.Plugins{{Source: "docker#v5", Config: map[string]any{"image": "alpine", "env": []any{"A", "B"}}}, {Source: "ecr#v2", Config: map[string]any{}}, {Source: "cache#v1", Config: []any{}}},
@@ -625,7 +638,10 @@ func checkC19(c *run.Ctx) {
 			return fmt.Sprintf("%v|%v|%s", sh.m.VerifSlots(), sortedIndex(sh.m.VerifIndex()), anyToDoc(sh.m).String())
 		}
 		pipeState := func() string { return modelToDocRaw(sh.pipe).String() }
-		stepState := func() string { return modelToDocRaw(sh.signStep).String() + fmt.Sprint(sh.penv) }
+		stepState := func() string {
+			ks, _ := json.Marshal(sh.pub)
+			return modelToDocRaw(sh.signStep).String() + fmt.Sprint(sh.penv) + string(ks)
+		}
 		allFields := cmp.Exporter(func(reflect.Type) bool { return true })
 		for i := 0; i < c.N(400, 4000); i++ {
 			op := i % 17
@@ -656,7 +672,7 @@ func checkC19(c *run.Ctx) {
 				return
 			}
 			if a := stepState(); a != b3 {
-				c.Violation(fmt.Sprintf("nomut/%d", i), map[string]any{"what": "observer " + name + " modified the step or env it observed", "before": clip(b3, 3000), "after": clip(a, 3000)})
+				c.Violation(fmt.Sprintf("nomut/%d", i), map[string]any{"what": "observer " + name + " modified the step, the env map or the key set it observed", "before": clip(b3, 3000), "after": clip(a, 3000)})
 				return
 			}
 			c.Count("mutation_checks", 3)
